@@ -117,6 +117,25 @@ class State(object):
         global_assumptions.update(self.context.assumptions)
 
     @property
+    def current_sign_convention(self):
+
+        return self._current_sign_convention
+
+    @current_sign_convention.setter
+    def current_sign_convention(self, val):
+        """Set the current sign convention: 'passive', 'active',
+        'hybrid', or None for the default ('hybrid')."""
+
+        self._current_sign_convention = val
+
+        # The sign convention is applied when the branch currents are
+        # stored so the cached solutions need to be dropped.
+        import sys
+        netlist = sys.modules.get('lcapy.netlist')
+        if netlist is not None:
+            netlist.Netlist._subcircuits_make.cache_clear()
+
+    @property
     def abbreviate_units(self):
 
         return self.printing.abbreviate_units
